@@ -153,6 +153,8 @@ def newton_stream(tier, seed, violations):
         nk += n_k; total += len(vals)
         for (case, call, val), c in zip(meta[k], codes):
             if c == 0: continue
+            if c == 31:     # the exact sum-product is infinite: outside C02's guard ("whose sum-product is finite")
+                hist["outside_guard_infinite"] = hist.get("outside_guard_infinite", 0) + 1; continue
             what = {1: "after kmax Newton passes the returned value lies BELOW the kmax-th Kleene iterate (Newton must converge at least as fast as Kleene: C02_newton_sandwich)",
                     4: "an entry of sum_products is missing",
                     10: "the value returned after exactly kmax passes of newton differs from the model's kmax-th Newton iterate (Model/Newton.v: newton_iter)"}.get(c, "framework inconsistency (code %d)" % c)
